@@ -128,11 +128,11 @@ theorem pre_ackBlock (p : List Hdr) (s : Tcb) (seg : Hdr) :
       simp only [apply_ite (mapT (pre p)), apply_ite (pre p), mapT_ok]
       rfl
     | LastAck =>
-      dsimp only
+      refine pre_afterAck p s _ rfl seg _ (fun u r => ?_)
+      have hf : (pre p u).isFinAcked = u.isFinAcked := rfl
+      rw [hf]
       simp only [apply_ite (mapT (pre p)), mapT_ok]
-      rfl
-    | TimeWait =>
-      exact pre_enqueueThen p s _ rfl _ _ rfl _ (fun u => rfl)
+    | TimeWait => rfl
 
 theorem pre_rstBlock (p : List Hdr) (s : Tcb) (seg : Hdr) :
     rstBlock (pre p s) seg = mapT (pre p) (rstBlock s seg) := by
@@ -413,17 +413,35 @@ theorem pre_receive (p : List Hdr) (s : Tcb) :
   rw [hs]
   cases s.state <;> rfl
 
+theorem pre_queueFin (p : List Hdr) (s : Tcb) :
+    (pre p s).queueFin = match s.queueFin with
+      | .error e => .error e
+      | .ok t => .ok (pre p t) := by
+  unfold queueFin
+  have ht : (pre p s).outgoing.text = s.outgoing.text := rfl
+  rw [ht]
+  by_cases h : s.outgoing.text.isEmpty = true
+  · rw [if_pos h, if_pos h, enqueue_eq, enqueue_eq]
+    dsimp only
+    have := pre_enqueueBuilt' p s (pre p s) rfl s.finHdr.built (pre p s).finHdr.built rfl
+    rw [this]
+    rfl
+  · rw [if_neg h, if_neg h]
+
 theorem pre_close (p : List Hdr) (s : Tcb) : (pre p s).close = mapT (pre p) s.close := by
   unfold close
   have hs : (pre p s).state = s.state := rfl
   rw [hs]
+  have e1 : ({ pre p s with state := .FinWait1 } : Tcb) = pre p { s with state := .FinWait1 } := rfl
+  have e2 : ({ pre p s with state := .LastAck } : Tcb) = pre p { s with state := .LastAck } := rfl
   cases s.state <;> first
     | rfl
-    | (rw [enqueue_eq, enqueue_eq]
-       dsimp only [mapT]
-       have := pre_enqueueBuilt' p s (pre p s) rfl s.finHdr.built (pre p s).finHdr.built rfl
-       rw [this]
-       rfl)
+    | (dsimp only
+       rw [e1, pre_queueFin]
+       cases ({ s with state := .FinWait1 } : Tcb).queueFin <;> rfl)
+    | (dsimp only
+       rw [e2, pre_queueFin]
+       cases ({ s with state := .LastAck } : Tcb).queueFin <;> rfl)
 
 /-- `segments()` hands the prefix to the network in front of its normal output.  The state it ends
     in is the one it would have reached without the prefix — except for ONE thing: sending anything
@@ -439,9 +457,15 @@ theorem pre_segments (p : List Hdr) (s : Tcb) (hp : p ≠ []) :
   dsimp only
   have e : ({ pre p s with outgoing.oneshot := [] } : Tcb) = { s with outgoing.oneshot := [] } := rfl
   rw [e]
+  have hf : (pre p s).finPending = s.finPending := rfl
+  rw [hf]
   cases segmentizeIfOpen { s with outgoing.oneshot := [] } with
   | error e => rfl
-  | ok u =>
+  | ok u0 =>
+    dsimp only
+    cases finIfPending s.finPending u0 with
+    | error e => rfl
+    | ok u =>
     dsimp only
     have ho : (pre p s).outgoing.oneshot = p ++ s.outgoing.oneshot := rfl
     rw [ho]
